@@ -76,7 +76,11 @@ Definition repo_structure_ok : bool := Eval vm_compute in
   skel_eqb websocket_writeFatal_skel [("set_if_nil", "writeErr")]%string      (* first error wins *)
   && skel_eqb websocket_prepWrite_skel [("test_err_ret", "writeErr")]%string  (* prepWrite returns the sticky error *)
   && skel_eqb websocket_flushFrame_skel [("call", "c.write")]%string          (* data frames go through Conn.write *)
-  && forallb site_ok websocket_transport_write_sites.                          (* no other transport write *)
+  && forallb site_ok websocket_transport_write_sites                           (* no other transport write *)
+  && forallb (fun e => String.eqb (snd e) "WriteControl") websocket_reader_side_writes   (* the default ping/close
+       handlers and the reader's own replies run on the READING goroutine: they must use the control
+       path; the message-writer path (WriteMessage/NextWriter) is single-writer *)
+  && negb (Nat.eqb (length websocket_reader_side_writes) 0).
 
 (* instructions of one frame write; [tmo] = this call has a deadline that expires while waiting *)
 Definition sev_code (tmo : bool) (f : frame) (e : sev) : list winstr :=
@@ -95,12 +99,15 @@ Definition frame_code (sk : list sev) (tmo : bool) (f : frame) : list winstr :=
 Inductive wop :=
 | OCtl (tmo : bool) (f : frame)     (* WriteControl *)
 | OMsg (fs : list frame)            (* one data message: prepWrite, then its frames *)
-| OCloseConn.                       (* Conn.Close *)
+| OCloseConn                        (* Conn.Close *)
+| OPing (f : frame).                (* a peer Ping arrives: the reading goroutine answers through the default
+                                       handler = WriteControl(Pong, payload, now + writeWait); f is the Pong *)
 Definition op_code (wsk csk : list sev) (o : wop) : list winstr :=
   match o with
   | OCtl tmo f => frame_code csk tmo f ++ [WEnd]
   | OMsg fs => WPrep :: flat_map (frame_code wsk false) fs ++ [WEnd]
   | OCloseConn => [WCloseT; WEnd]
+  | OPing f => frame_code csk true f ++ [WEnd]
   end.
 Definition prog_code (wsk csk : list sev) (ops : list wop) : list winstr :=
   flat_map (op_code wsk csk) ops.
@@ -291,6 +298,8 @@ Definition frames_of_message (server : bool) (B op n : Z) : list frame :=
 (* case: (server B (thread..) (action..))
      thread  = (op..)   op = (0 tmo opcode len) WriteControl | (1 opcode (n..)) NextWriter/Write../Close
                              | (2 opcode n) WriteMessage | (3) Conn.Close
+                             | (4 len) a peer Ping with len payload bytes arrives and the reading goroutine
+                               answers it (default ping handler)
      action  = (0 t)        thread t starts its next operation
              | (1 p next)   the transport write thread p is blocked in is let through; the thread
                             seen to obtain the lock next is [next] (-1: none seen)
@@ -308,6 +317,7 @@ Definition sx_op (server : bool) (B : Z) (o : sx) : option wop :=
       end
   | SL [SZ 2; SZ opc; SZ n] => Some (OMsg (frames_of_message server B opc n))
   | SL [SZ 3] => Some OCloseConn
+  | SL [SZ 4; SZ len] => Some (OPing (mk_frame websocket_PongMessage true len 1))
   | _ => None
   end.
 
@@ -413,6 +423,14 @@ Definition obs_frame (e : nat * frame * nat) : sx :=
   SL [snat t; SZ (f_op f); sbool (f_fin f); SZ (f_len f); sbool (Nat.eqb n (f_nch f))].
 Definition obs_res (e : nat * option Z) : sx := SZ (match snd e with None => 0 | Some c => c end).
 
+(* what the driver can see of a ping answered by the reader: the pong is on the wire (0) or not (9) *)
+Fixpoint obs_results (ops : list wop) (rs : list (nat * option Z)) : list sx :=
+  match ops, rs with
+  | OPing _ :: ops', r :: rs' => SZ (match snd r with None => 0 | Some _ => 9 end) :: obs_results ops' rs'
+  | _ :: ops', r :: rs' => obs_res r :: obs_results ops' rs'
+  | _, _ => []
+  end.
+
 Definition run_c15 (c : sx) : sx :=
   match c with
   | SL [SZ server; SZ B; SL threads; SL acts] =>
@@ -424,7 +442,7 @@ Definition run_c15 (c : sx) : sx :=
           let s := wrun (winit_ops write_skel ctl_skel progs) sched in
           SL [SZ 0;
               SL (map obs_frame (group_wire (rev (wwire s)) []));
-              SL (map (fun t => SL (map obs_res (filter (fun e => Nat.eqb (fst e) t) (rev (wres s)))))
+              SL (map (fun t => SL (obs_results (nth t progs []) (filter (fun e => Nat.eqb (fst e) t) (rev (wres s)))))
                       (seq 0 (length progs)));
               sbool (wholeb (rev (wwire s)))]
       end
